@@ -59,6 +59,24 @@ def real_table(prog):
     return _table_cache['v']
 
 
+# The language every registered suffix conventionally denotes (what the README's language list
+# promises), written independently of the code: a suffix wired to a sibling grammar (`cc` -> C)
+# parses, but finds tags inside that language's string literals.  Suffixes the table may gain
+# later are not judged; `h` -> C++ and `go.*` -> Go are the project's documented choices.
+CONVENTIONAL = {
+    'Makefile': 'makefile', 'makefile': 'makefile', 'mk': 'makefile', 'bash': 'bash', 'sh': 'bash', 'c': 'c', 'cc': 'cpp',
+    'cpp': 'cpp', 'h': 'cpp', 'cs': 'c_sharp', 'css': 'css', 'd.ts': 'typescript', 'ts': 'typescript', 'tsx': 'tsx',
+    'go': 'go', 'go.mod': 'go', 'go.sum': 'go', 'go.work': 'go', 'htm': 'html', 'html': 'html', 'java': 'java',
+    'js': 'javascript', 'jsx': 'javascript', 'kt': 'kotlin', 'kts': 'kotlin', 'markdown': 'markdown', 'md': 'markdown',
+    'php': 'php', 'phtml': 'php', 'py': 'python', 'pyi': 'python', 'rb': 'ruby', 'rs': 'rust', 'sql': 'sql',
+    'swift': 'swift', 'toml': 'toml', 'xml': 'xml', 'yaml': 'yaml', 'yml': 'yaml'}
+# a construct of the conventional language that its sibling grammar misreads: (file text, blocks expected)
+PROBES = {
+    ('cc', 'c'): b'const char* s = R"doc(fits 12" racks // <block name="decoy"> )doc";\n',
+    ('cpp', 'c'): b'const char* s = R"doc(fits 12" racks // <block name="decoy"> )doc";\n',
+}
+
+
 class FakeFS:
     pass
 
@@ -464,6 +482,22 @@ def main(tier):
     results += pmap(run_flags_supported, [0], jobs=1)
     for r in results:
         agg.add(r)
+    # the registered table against the conventional language of each suffix
+    for key, g in sorted(names.items()):
+        k = key.decode('latin1')
+        agg.obligations += 1
+        if k in CONVENTIONAL and CONVENTIONAL[k] != g:
+            v = dict(role='suffix-registered-with-wrong-grammar', summary='suffix %r is registered with grammar %s, its language is %s' % (k, g, CONVENTIONAL[k]),
+                     suffix=k, grammar=g, table=True)
+            probe = PROBES.get((k, g), ('// <block name="x">\n// </block>\n').encode())
+            fname = k if k in ('Makefile', 'makefile', 'go.mod', 'go.sum', 'go.work') else 'f.' + k
+            r = run_scan(binary, {fname: probe}, ['**'], extra_args=['list'])
+            v['observed'] = dict(code=r['code'], stdout=r['stdout'][-200:], stderr=r['stderr'][-200:])
+            misparsed = (k, g) in PROBES and ('decoy' in r['stdout'] or r['code'] != 0)
+            v['confirmed'] = True if misparsed or (k, g) not in PROBES else False
+            v['replay'] = save_replay(PROP, 'table-%s' % k.replace('.', '_'), {fname: probe}, "list '**'",
+                                      'a %s construct in a %r file; %s' % (CONVENTIONAL[k], k, v['summary']), v)
+            agg.violations.append(v)
     by_role = {}
     for v in agg.violations:
         by_role.setdefault(v['role'], []).append(v)
@@ -471,6 +505,9 @@ def main(tier):
     for role, vs in sorted(by_role.items()):
         got = None
         for i, v in enumerate(vs[:8]):
+            if v.get('table'):
+                got = v
+                break
             confirm(binary, v, i, names)
             if v['confirmed']:
                 got = v
